@@ -1,0 +1,41 @@
+//go:build verif
+
+package agent
+
+// Contracts for the agent bundle lookup (property C46). Comment-only file:
+// compiled only under the "verif" build tag, contains no code. The "//@"
+// lines are read by /verif/govc. nopen/openok/fname/fopenidx/exepath/pdir/
+// gzsrc/tarsrc/tarcur/sprintf2/copy* are the abstract vocabulary of the
+// trusted os / archive contracts (govc/externs/os_file.spec).
+
+// The archive entry name for a platform: fmt.Sprintf("%s_%s", goos, goarch).
+//@ spec platname(goos, goarch) string = sprintf2("%s_%s", box(goos), box(goarch))
+
+// Search order: in the default mode the first search path is the directory of
+// the running executable and the second (if any) is the libexec directory;
+// the k-th os.Open of the loop is of <k-th search path>/<bundle name>; the
+// bundle that is decompressed is the file returned by the first successful
+// open (no earlier open of the loop succeeded).
+// Extraction: io.CopyN copies exactly header.Size bytes from the tar reader
+// (which reads the gzip reader, which reads the bundle) positioned at the
+// entry whose name is the platform name, into the output file; a platform
+// without an entry is rejected.
+// bidx(f, n0): the search-path index at which bundle file f was opened, n0
+// being the number of os.Open calls made before the function started.
+//@ spec bidx(f, n0) int = fopenidx(f) - n0
+//@ func ExecutableForPlatform
+//@   maypanic
+//@   loop 1 invariant[paths] ExpectedBundleLocation == BundleLocationDefault ==> (len(bundleSearchPaths) == 1 || len(bundleSearchPaths) == 2) && bundleSearchPaths[0] == pdir(exepath()) && (len(bundleSearchPaths) == 2 ==> bundleSearchPaths[1] == filesystem.libexecdir())
+//@   loop 1 invariant[count] -1 <= rangeindex && rangeindex < len(bundleSearchPaths) && nopen == old(nopen) + rangeindex + 1
+//@   loop 1 invariant[first] bundle != nil ==> 0 <= bidx(bundle, old(nopen)) && bidx(bundle, old(nopen)) <= rangeindex && fname(bundle) == pjoin2(bundleSearchPaths[bidx(bundle, old(nopen))], BundleName) && openok[fopenidx(bundle)] && forall i in 0..bidx(bundle, old(nopen)) :: !openok[old(nopen) + i]
+//@   loop 1 invariant[once] ncopy == old(ncopy)
+//@   loop 1 invariant[none] bundle == nil ==> forall i in 0..rangeindex+1 :: !openok[old(nopen) + i]
+//@   at call os.Open assert[order] arg0 == pjoin2(bundleSearchPaths[rangeindex], BundleName) && nopen == old(nopen) + rangeindex
+//@   at call gzip.NewReader assert[first] arg0 == box(bundle) && bundle != nil && 0 <= bidx(bundle, old(nopen)) && bidx(bundle, old(nopen)) < len(bundleSearchPaths) && fname(bundle) == pjoin2(bundleSearchPaths[bidx(bundle, old(nopen))], BundleName) && openok[fopenidx(bundle)] && forall i in 0..bidx(bundle, old(nopen)) :: !openok[old(nopen) + i]
+//@   at call tar.NewReader assert[chain] arg0 == box(bundleDecompressor)
+//@   loop 2 invariant[entry] header == nil && bundleArchive != nil
+//@   loop 2 invariant[once] ncopy == old(ncopy)
+//@   at call io.CopyN assert[entry] arg1 == box(bundleArchive) && tarsrc(bundleArchive) == box(bundleDecompressor) && gzsrc(bundleDecompressor) == box(bundle)
+//@   at call io.CopyN assert[entry] header != nil && tarcur[bundleArchive] == header && header.Name == platname(goos, goarch) && arg2 == header.Size
+//@   at call io.CopyN assert[output] arg0 == box(file) && file != nil && (outputPath != "" ==> fname(file) == outputPath)
+//@   ensures[copied] result1 == nil ==> copyerr == nil && ncopy == old(ncopy) + 1 && result0 == fname(unboxptr(copydst, "os.File"))
